@@ -500,14 +500,14 @@ def check_civil(prog, rep):
                 for p in paths:
                     for a in p.actions:
                         if a[0] == 'OVERFLOW':
-                            bad.add((a[2], '%s leaves %s for years in [%d, %d] (month %d)' % (a[1], a[3], cell.lo, cell.hi, mo)))
+                            bad.add((a[4], a[2], '%s in the computation of "%s" leaves %s for some year in [%d, %d] (month %d)' % (a[1], a[4], a[3], cell.lo, cell.hi, mo)))
         if bad:
             seen_w = set()
-            for where, msg in sorted(bad):
-                if where in seen_w:
+            for var, where, msg in sorted(bad):
+                if var in seen_w:
                     continue
-                seen_w.add(where)
-                rep.finding('R15.6', 'To(time_point)|signed overflow at %s' % where.split(':')[-1], where,
+                seen_w.add(var)
+                rep.finding('R15.6', 'To(time_point)|signed overflow computing %s' % var, where,
                             '%s: %s - undefined behaviour before the range guard' % (short, msg), func=f.id)
         else:
             rep.ok('R15.6', short, sample={'function': short, 'cells': n_cells})
